@@ -21,6 +21,9 @@ type Meta = crate::scenario::DocMeta;
 struct Entry {
     text: String,
     meta: Option<Meta>,
+    /// the id as spelled by the call that stored the current content (equal ids can be spelled
+    /// differently: `d//e.aidl`, `d/e.aidl`)
+    spelling: std::ffi::OsString,
 }
 
 fn meta_of(c: &Content) -> Option<Meta> {
@@ -410,11 +413,13 @@ fn run_inner(w: &mut World, s: &HistScenario) -> RunOut {
                 loaded_from.remove(&id);
                 stale.remove(&id);
                 // Note: BTreeMap::insert keeps the old key on replacement, like the library's HashMap
+                let spelling = id.as_os_str().to_owned();
                 model.insert(
                     id,
                     Entry {
                         text,
                         meta: meta_of(content),
+                        spelling,
                     },
                 );
                 mutations_since_obs += 1;
@@ -783,7 +788,8 @@ fn run_inner(w: &mut World, s: &HistScenario) -> RunOut {
                             }
                             stale.remove(&id);
                             loaded_from.insert(id.clone(), slot.clone());
-                            model.insert(id, Entry { text, meta });
+                            let spelling = id.as_os_str().to_owned();
+                            model.insert(id, Entry { text, meta, spelling });
                         } else {
                             w.count("loads_failed");
                             interesting_mutation_pending = true;
@@ -969,6 +975,24 @@ fn check_c12(
                     left: format!("{k:?}"),
                     right: format!("{:?}", r.id),
                 });
+            }
+        }
+        // the id a result is tagged with is the one given by the call that stored its content
+        for (k, e) in model {
+            if let Some(r) = m.get(k) {
+                if r.id.as_os_str() != e.spelling.as_os_str() {
+                    return Some(Violation {
+                        property: "C12",
+                        clause: "id_latest".to_owned(),
+                        signature: "id_latest".to_owned(),
+                        detail: format!(
+                            "after step {si}: the result for {:?} is tagged with the id {:?}, an equal path but not the one given by the call that stored its latest content ({:?}): a fresh parser holding the surviving (id, content) pair returns the latter",
+                            k, r.id, e.spelling
+                        ),
+                        left: format!("{:?}", r.id),
+                        right: format!("{:?}", e.spelling),
+                    });
+                }
             }
         }
         // clause 4: attribution of every well-formed generated document to its latest version
@@ -1277,4 +1301,142 @@ fn check_c13(
         }
     }
     (None, state, nontrivial)
+}
+
+// ---------------------------------------------------------------------------------------------
+// The working directory (C12): a relative path given to add_file means the file it names NOW
+// ---------------------------------------------------------------------------------------------
+
+/// One scripted scenario around `std::env::set_current_dir` (process-global, hence run on its
+/// own, never inside the parallel batch): a parser is created in directory A and loads
+/// relative paths; the process moves to directory B, where the same relative paths name other
+/// files (or none); further loads must read B's files, and a failed load must change nothing.
+pub fn run_cwd(seed: u64, variant: u64) -> RunOut {
+    use crate::rng::Rng;
+    let mut rng = Rng::new(crate::rng::mix3(seed, 0xc3d, variant));
+    let mut counters: BTreeMap<String, u64> = BTreeMap::new();
+    counters.insert("cwd_scenarios".to_owned(), 1);
+    let base = format!(
+        "{}/.scratch/{}-cwd-{}",
+        std::env::var("VERIF_DIR").unwrap_or_else(|_| "/verif".to_owned()),
+        std::process::id(),
+        SCRATCH_NONCE.fetch_add(1, Ordering::SeqCst)
+    );
+    let original = std::env::current_dir().ok();
+    let doc = |kind: &str, pkg: &str, name: &str, serial: u64, import: &str| -> String {
+        let body = match kind {
+            "enum" => format!("SERIAL = {serial},"),
+            _ => format!("const int SERIAL = {serial};"),
+        };
+        format!("package {pkg};\n{import}{kind} {name} {{\n    {body}\n}}\n")
+    };
+    let rels = ["rel.aidl", "sub/x.aidl", "./rel.aidl", "sub/../rel.aidl"];
+    for d in ["A", "A/sub", "B", "B/sub"] {
+        let _ = std::fs::create_dir_all(format!("{base}/{d}"));
+    }
+    // what each directory holds under the relative names
+    let mut texts: BTreeMap<(&str, &str), String> = BTreeMap::new();
+    texts.insert(("A", "rel.aidl"), doc("parcelable", "p", "Foo", 1, ""));
+    texts.insert(("A", "sub/x.aidl"), doc("interface", "p", "IBar", 2, "import p.Foo;\n"));
+    texts.insert(("B", "rel.aidl"), doc(*rng.pick(&["enum", "interface", "parcelable"]), "p", "Foo", 3, ""));
+    if rng.pct(50) {
+        texts.insert(("B", "sub/x.aidl"), doc("interface", "p", "IBar", 4, "import p.Foo;\nimport p.Missing;\n"));
+    }
+    for ((d, r), t) in &texts {
+        let _ = std::fs::write(format!("{base}/{d}/{r}"), t);
+    }
+    let content_of = |dir: &str, rel: &str| -> Option<String> {
+        let slot = disk_slot(rel);
+        texts.get(&(dir, slot.as_str())).cloned()
+    };
+    let mut violation: Option<Violation> = None;
+    let mut out = Digest::new();
+    let mut model: BTreeMap<PathBuf, String> = BTreeMap::new();
+    let mut steps = 0u64;
+    let mut dir = "A";
+    let _ = std::env::set_current_dir(format!("{base}/A"));
+    let mut parser: P = P::new();
+    let n_ops = rng.range(3, 8);
+    let mut moved = false;
+    for i in 0..n_ops {
+        steps += 1;
+        if !moved && (i >= 1 && rng.pct(50) || i == n_ops - 2) {
+            dir = "B";
+            let _ = std::env::set_current_dir(format!("{base}/B"));
+            moved = true;
+            continue;
+        }
+        let rel = *rng.pick(&rels);
+        let r = catch_unwind(AssertUnwindSafe(|| parser.add_file(rel)));
+        let expect = content_of(dir, rel);
+        match (r, &expect) {
+            (Ok(Ok(())), Some(t)) => {
+                model.insert(PathBuf::from(rel), t.clone());
+            }
+            (Ok(Err(_)), None) => {}
+            (Ok(res), _) => {
+                violation = Some(Violation {
+                    property: "C12",
+                    clause: "add_file_result".to_owned(),
+                    signature: "add_file_result:cwd".to_owned(),
+                    detail: format!(
+                        "working-directory scenario {variant}, step {i}: add_file({rel:?}) returned {:?} although the file {} in the current directory ({dir}); the parser was created in directory A",
+                        res.map_err(|e| e.kind()),
+                        if expect.is_some() { "exists" } else { "does not exist" }
+                    ),
+                    left: String::new(),
+                    right: String::new(),
+                });
+                break;
+            }
+            (Err(p), _) => {
+                violation = Some(Violation {
+                    property: "C12",
+                    clause: "panic".to_owned(),
+                    signature: "panic:add_file:cwd".to_owned(),
+                    detail: format!("working-directory scenario {variant}: add_file panicked: {}", exec::panic_message(p)),
+                    left: String::new(),
+                    right: String::new(),
+                });
+                break;
+            }
+        }
+        // compare with a fresh parser holding the model
+        let got = exec::observe(&parser);
+        let mut fresh = P::new();
+        for (k, t) in &model {
+            let _ = exec::add_content(&mut fresh, k.clone(), t);
+        }
+        let want = exec::observe(&fresh);
+        out.str(&canon::canon_outcome(&got));
+        if let Some((file, what)) = canon::first_difference(&want, &got) {
+            violation = Some(Violation {
+                property: "C12",
+                clause: "history".to_owned(),
+                signature: format!("history:cwd:{what}"),
+                detail: format!(
+                    "working-directory scenario {variant}, after step {i} (current directory {dir}, parser created in A): the parser and a fresh parser holding the texts the relative paths name now differ in the {what} of {file}"
+                ),
+                left: excerpt_outcome(&got, &file),
+                right: excerpt_outcome(&want, &file),
+            });
+            break;
+        }
+    }
+    drop(parser);
+    if let Some(o) = original {
+        let _ = std::env::set_current_dir(o);
+    }
+    let _ = std::fs::remove_dir_all(&base);
+    RunOut {
+        violation,
+        gen_digest: crate::rng::mix3(seed, 0xc3d, variant),
+        out_digest: out.finish(),
+        nontrivial: moved,
+        steps,
+        executions: 1,
+        counters,
+        states: Vec::new(),
+        transitions: Vec::new(),
+    }
 }
